@@ -10,6 +10,8 @@ def table(J):
         "C07": [J("TestC07", checks=(40000, 250000), shards=(4, 16), limit=(600, 2400)), J("TestC07Trunc", shards=(4, 16), limit=(600, 2400), fuzz=("FuzzC07Parse", 240))],
         "C08": [J("TestC08", checks=(40000, 400000), shards=(4, 16), limit=(600, 2400)), J("TestC08Sweep", shards=(4, 16), limit=(600, 2400), fuzz=("FuzzC08", 240))],
         "C09": [J("TestC09", checks=(8000, 60000), shards=(3, 16)), J("TestC09Sweep", shards=(5, 5))],
+        "C12": [J("TestC12", checks=(8000, 60000), shards=(4, 16))],
+        "C13": [J("TestC13", checks=(8000, 60000), shards=(4, 16))],
         "C14": [J("TestC14Xid", race=True, shards=(1, 4)), J("TestC14Batch", race=True, checks=(60, 500), shards=(2, 8)), J("TestC14Xid", shards=(1, 8))],
         "C15": [J("TestC15", checks=(4000, 60000), shards=(1, 4)), J("TestC15Words", shards=(4, 16)), J("TestC15Race", race=True, shards=(1, 4))],
         "C16": [J("TestC16")],
